@@ -990,6 +990,9 @@ class Transaction(object):
                 inputs[n].script = script if not inputs[n].script else inputs[n].script + script
                 inputs[n].keys = script.keys
                 inputs[n].signatures = script.signatures
+                if script.signatures:
+                    # The digest a signature commits to depends on its hash type byte
+                    inputs[n].hash_type = script.signatures[0].hash_type
                 if not script.script_types:
                     if not coinbase:
                         inputs[n].script_type = 'unknown'
